@@ -436,7 +436,8 @@ def plan_C16(q, seed):
         gen_job("deadclonefrom", "DEAD", 8000 if q else 150000, time_limit=20 if q else 300),
         e2(gen_job("deadclone", "DEAD", 2000 if q else 40000, time_limit=20 if q else 200)),
         e2(gen_job("deaddrop", "DEAD", 2000 if q else 40000, time_limit=20 if q else 200)),
-        {"kind": "miri-child", "engine": "e3", "count": 12 if q else 200, "label": "deadclone-e3", "args": [], "lo": 0, "hi": 0},
+        {"kind": "miri-child", "engine": "e3", "count": 16 if q else 240, "label": "deadclone-e3", "args": [], "lo": 0, "hi": 0,
+         "modes": ["deadclone", "deadclonefrom", "deadcloneafterweak", "deadclonelate"]},
     ]
     return {
         "jobs": jobs,
